@@ -145,4 +145,6 @@ theorem Persp.revert_err {p : Persp} {ck : Nat} (hck : p.commands.length < ck) :
   unfold Persp.revert
   rw [if_neg (by omega), if_pos hck]
 
+instance (p : Persp) : Decidable p.Inv := by unfold Persp.Inv; infer_instance
+
 end AranyaV.Facts
